@@ -230,6 +230,98 @@ theorem main_uses_warmup_result {P} (A : Adapters P) (pre : List Stage) (n : Nat
   simp only [List.foldl_cons, List.foldl_nil]
   exact main_params_constant A _ n t s
 
+/-! ### The slow windows grow -/
+
+private theorem windows_done (mult : Rat) (total fuel counter w : Nat) (h : total ≤ counter) :
+    windows mult total fuel counter w = [] := by
+  cases fuel with
+  | zero => simp [windows]
+  | succ f => unfold windows; simp [Nat.not_lt.mpr h]
+
+/-- The slow windows grow: apart from the last window (which absorbs the remainder) every
+window has exactly the current window size, the sizes are non-decreasing, and each is at
+least the initial size. -/
+theorem windows_growing (mult : Rat) (hm : 1 ≤ mult) (total : Nat) :
+    ∀ (fuel counter w : Nat),
+      (windows mult total fuel counter w).dropLast.Pairwise (· ≤ ·) ∧
+      ∀ x ∈ (windows mult total fuel counter w).dropLast, w ≤ x := by
+  intro fuel
+  induction fuel with
+  | zero => intro counter w; simp [windows]
+  | succ fuel ih =>
+    intro counter w
+    unfold windows
+    by_cases hlt : counter < total
+    · simp only [hlt, if_true]
+      set next := counter + ((1 + mult) * (w : Rat)).floor.toNat with hnext
+      set w' := if next > total then total - counter else w with hw'
+      set w2 := (mult * (w' : Rat)).floor.toNat with hw2
+      have hw2le : w' ≤ w2 := le_floor_toNat _ _ (nat_le_mul mult hm w')
+      obtain ⟨ihp, ihm⟩ := ih (counter + w') w2
+      by_cases hnil : windows mult total fuel (counter + w') w2 = []
+      · simp [hnil]
+      · have hww : w' = w := by
+          by_cases hn : next > total
+          · exfalso; apply hnil
+            apply windows_done
+            simp only [hw', hn, if_true]; omega
+          · simp only [hw', hn, if_false]
+        rw [List.dropLast_cons_of_ne_nil hnil]
+        constructor
+        · rw [List.pairwise_cons]
+          refine ⟨?_, ihp⟩
+          intro x hx; have := ihm x hx; omega
+        · intro x hx
+          rcases List.mem_cons.mp hx with h | h
+          · omega
+          · have := ihm x h; omega
+    · simp [hlt]
+
+/-- Every window except the last is the floor of `mult` times its predecessor
+(`n_window_iter = int(n_window_iter * multiplier)`): consecutive windows `a, b` that are
+followed by at least one more window satisfy `b = ⌊mult · a⌋`. -/
+theorem windows_ratio (mult : Rat) (total : Nat) :
+    ∀ (fuel counter w : Nat) (pre : List Nat) (a b c : Nat) (post : List Nat),
+      windows mult total fuel counter w = pre ++ a :: b :: c :: post →
+      b = (mult * (a : Rat)).floor.toNat := by
+  intro fuel
+  induction fuel with
+  | zero => intro counter w pre a b c post h; simp [windows] at h
+  | succ fuel ih =>
+    intro counter w pre a b c post h
+    unfold windows at h
+    by_cases hlt : counter < total
+    · simp only [hlt, if_true] at h
+      set next := counter + ((1 + mult) * (w : Rat)).floor.toNat with hnext
+      set w' := if next > total then total - counter else w with hw'
+      cases pre with
+      | cons p pre =>
+        simp only [List.cons_append, List.cons.injEq] at h
+        exact ih _ _ pre a b c post h.2
+      | nil =>
+        simp only [List.nil_append, List.cons.injEq] at h
+        obtain ⟨ha, hrest⟩ := h
+        -- rest = b :: c :: post : unfold once more
+        cases fuel with
+        | zero => simp [windows] at hrest
+        | succ f =>
+          unfold windows at hrest
+          by_cases hlt2 : counter + w' < total
+          · simp only [hlt2, if_true] at hrest
+            simp only [List.cons.injEq] at hrest
+            obtain ⟨hb, hrest2⟩ := hrest
+            -- the window b is followed by c, so it was not the remainder window
+            by_cases hn : counter + w' + ((1 + mult) * (((mult * (w' : Rat)).floor.toNat : Nat) : Rat)).floor.toNat > total
+            · exfalso
+              simp only [hn, if_true] at hrest2 hb
+              rw [windows_done] at hrest2
+              · simp at hrest2
+              · omega
+            · simp only [hn, if_false] at hb
+              rw [← hb, ← ha]
+          · simp [hlt2] at hrest
+    · simp [hlt] at h
+
 /-! ### Non-vacuity: concrete instances of the hypotheses -/
 
 example : windowedStages {} 1000 500 false =
@@ -243,5 +335,7 @@ example : windowedStages {} 6 3 true =
 
 example : (1 : Nat) ≤ ({} : Config).initSlowWindow ∧ (1 : Rat) ≤ ({} : Config).mult := by
   decide +kernel
+
+example : windows 2 800 801 0 25 = [25, 50, 100, 200, 425] := by decide +kernel
 
 end MiciVerif.C16
